@@ -329,7 +329,21 @@ class P:
             return ("tuple", xs) if tup else ("paren", xs[0])
         if v == "[":
             self.next()
-            return ("array", self.args("]"))
+            if self.at("]"):
+                self.next()
+                return ("array", [])
+            first = self.expr()
+            if self.eat(";"):                       # `[x; n]`
+                n = self.expr()
+                self.expect("]")
+                return ("repeat", first, n)
+            xs = [first]
+            while self.eat(","):
+                if self.at("]"):
+                    break
+                xs.append(self.expr())
+            self.expect("]")
+            return ("array", xs)
         if v == "{":
             return self.block()
         if v == "|" or v == "||":
